@@ -9,6 +9,13 @@ def generic(prop, tier, harnesses, only, what_for, bounds, functions, assumption
     if only:
         harnesses = [h for h in harnesses if only in h[0]]
     res = run.run_all(harnesses, timeout_s)
+    # a harness without a verdict (its CBMC process was starved or killed while 16 ran at once) is retried on its own
+    again = [n for n, _ in harnesses if res.get(n, {}).get('status') in ('missing', 'error')]
+    if again and len(again) <= 12:
+        res2 = run.run_all(harnesses, timeout_s, jobs=4, only=again)
+        for n in again:
+            if res2.get(n, {}).get('status') in ('ok', 'failed'):
+                res[n] = res2[n]
     states = transitions = 0
     for name, _ in harnesses:
         r = res.get(name, {'status': 'missing'})
